@@ -97,6 +97,7 @@ type rpcState struct {
 	stream    any
 	ctxVals   []ctxVal
 	mutatedObj map[proto.Message]bool
+	bpReported bool
 }
 
 // Sim is one simulated run.
@@ -600,6 +601,9 @@ func (s *Sim) drain(maxSteps int) {
 	for i := 0; i < maxSteps; i++ {
 		synctest.Wait()
 		s.step++
+		if s.hookStep != nil {
+			s.hookStep(s)
+		}
 		evs := s.enabled()
 		if len(evs) == 0 {
 			if t, ok := s.nextInstant(); ok {
